@@ -352,7 +352,7 @@ func record(test string, c Case, o outcome) {
 func TestMain(m *testing.M) {
 	env = atenv.Get(atenv.Options{})
 	ctx.Rec.SetRule("generator: AT scenarios = 1–2 tables (key shape int / bigint auto-increment / varchar / composite; 1–4 further columns over INT BIGINT TINYINT SMALLINT VARCHAR CHAR TEXT DECIMAL DOUBLE FLOAT DATETIME DATE VARBINARY BLOB, nullable flags, defaults, optional unique index; 0–6 boundary-biased initial rows) × 1–3 branches (autocommit statement or explicit transaction of 1–3 statements, through db or a pinned Conn, Exec or prepared) × statements from the DML grammar (INSERT 1–3 rows with literals/parameters/NULL/DEFAULT, key given/omitted/NULL; UPDATE with literal, parameter or arithmetic assignments; DELETE; INSERT…ON DUPLICATE KEY UPDATE; WHERE from =, <>, <, >, IN, BETWEEN, AND/OR, parentheses, LIKE, IS NULL, ORDER BY/LIMIT, matching 0/1/many rows) × serializer json × 10 compress-type spellings × data validation × only-care-update-columns; the business callback fails after its last branch, the coordinator then sends BranchRollback for every registered branch in reverse order, immediately or after 1–3 committed local transactions on other rows. Oracle: every answer is Rollbacked, tables equal the snapshot before the global transaction (typed multiset equality), no undo_log row for the xid, no engine transaction left open. Non-trivial: ≥1 registered branch that changed ≥1 row and was rolled back. Distinct by (key shapes, column types, statement kinds with WHERE shape and match cardinality, configuration).")
-	ctx.Rec.Assume("MySQL / go-sql-driver behaviour as modelled by memsql (DESIGN §4.1)", "coordinator as modelled by faketc", "protobuf serializer excluded here: its value-kind loss is the known finding C08-K1")
+	ctx.Rec.Assume("MySQL / go-sql-driver behaviour as modelled by memsql (DESIGN §4.1)", "coordinator as modelled by faketc", "protobuf serializer excluded here: it reads every value back as a JSON generic (integers as float64, known finding C08-K1), which makes the rollback validation refuse every branch")
 	ctx.RunWitnesses(func(f stats.Finding) *pt.Failure {
 		var c Case
 		if err := json.Unmarshal(f.Witness, &c); err != nil {
